@@ -156,7 +156,8 @@ def ATAN2(x_num, y_num):
         return y_num
     if x_num == 0 and y_num == 0:
         return error.DIV_ZERO
-    return math.atan2(y_num, x_num)
+    # + 0.0: a negative zero (what -SIN(0) or ROUND(-0.4,0) leave behind) is the same point of the axis
+    return math.atan2(y_num + 0.0, x_num + 0.0)
 
 
 @dispatcher.register_for('ATANH')
